@@ -241,6 +241,14 @@ def queries(s: State) -> str:
         ('total_pot', lambda: p_int(s.total_pot_amount)),
         ('pots', lambda: p_list(p_pot, list(s.pots))),
         ('board_count', lambda: p_int(s.board_count)),
+        ('ante_ix', lambda: p_list(str, list(s.ante_poster_indices))),
+        ('blind_ix', lambda: p_list(str, list(s.blind_or_straddle_poster_indices))),
+        ('runout_ix', lambda: p_list(str, list(s.runout_count_selector_indices))),
+        ('kill_ix', lambda: p_list(str, list(s.hand_killing_indices))),
+        ('pull_ix', lambda: p_list(str, list(s.chips_pulling_indices))),
+        ('eff', lambda: p_list(lambda i: guarded(lambda: s.get_effective_stack(i), p_int), list(s.player_indices))),
+        ('in_play', lambda: p_cards(s.cards_in_play)),
+        ('out_play', lambda: p_cards(s.cards_not_in_play)),
     ]
     out = []
     for k, f in items:
